@@ -25,6 +25,10 @@ pub struct RunCfg {
 }
 
 impl RunCfg {
+    /// scratch directory of this run (worker status files, logs): under VERIF_OUT_DIR when set, else under /verif
+    pub fn work_dir(&self) -> PathBuf {
+        std::env::var("VERIF_OUT_DIR").map(PathBuf::from).unwrap_or_else(|_| self.verif_dir.clone()).join("work").join(&self.prop)
+    }
     pub fn quick(&self) -> bool {
         self.tier == Tier::Quick
     }
